@@ -415,6 +415,7 @@ type ExploreOptions struct {
 	MaxTuples int // argument tuples per method
 	Bounds    bool
 	Trace     bool        // build Trace records (needed by C04/C05 consumers)
+	Pure      bool        // purity monitor (C10): pure methods leave receiver and buffers unchanged
 	Facts     *FactOracle // non-nil: evaluate the checker's fact lists at every point (C02)
 	// OnExec is called after every execution.
 	OnExec func(x *Execution)
@@ -446,6 +447,7 @@ type ExploreStats struct {
 	Problems     []string
 	Bugs         []string
 	Suspensions  int64
+	PureCalls    int64 // calls of pure methods bracketed by the purity monitor
 }
 
 type recvNode struct {
@@ -485,6 +487,7 @@ func Explore(p *Prog, opt ExploreOptions) *ExploreStats {
 	m := NewMachine(p)
 	m.CheckBounds = opt.Bounds
 	m.WantTrace = opt.Trace
+	m.CheckPure = opt.Pure
 	var fm *FactMonitor
 	if opt.Facts != nil {
 		fm = NewFactMonitor(p, opt.Facts)
@@ -561,6 +564,7 @@ func Explore(p *Prog, opt ExploreOptions) *ExploreStats {
 	}
 done:
 	st.Steps, st.Evals, st.BoundsN, st.ConstN = m.Steps, m.Evals, m.BoundsN, m.ConstN
+	st.PureCalls = m.PureCalls
 	if fm != nil {
 		st.Pairs, st.PointVisits, st.PointStates, st.Uneval = fm.Pairs, fm.Points, fm.States, fm.Uneval
 		st.Problems = fm.Problems
